@@ -2,6 +2,10 @@
 check (yet) or outside the reach of static analysis are in NOT_APPLICABLE with the reason."""
 
 CLAIMS = {
+    "C23": {
+        "text": "Decides relational clauses of prune_non_relay_paths: only Unusable / Inactive entries of the non-relay part of the map can enter the prune set and retain() removes exactly that set (open, unknown-status and relay paths are never removed); nothing is removed below MAX_NON_RELAY_PATHS non-relay paths; the closed paths are sorted most-recently-closed first and the kept prefix must have length min(n, MAX_INACTIVE_NON_RELAY_PATHS) for every n (index expression evaluated for n = 0..40) with at least one closed path surviving; the failed list is cut only when every path failed and then leaves exactly 30. KNOWN FINDING on the pinned tree: the split index is n - 10 (saturating), so 10 (not all-but-10) closed paths are pruned and a map of failed + <=10 closed paths is emptied. Time values and container semantics are assumed.",
+        "technique": "match-arm table and exact def-chain provenance of the prune set, success-edge guards, evaluation of the index expression over all small n (finite enumeration of an integer relation), sort-key orientation",
+    },
     "C13": {
         "text": "Decides the decision logic of the captive-portal handler as a truth function extracted from the MIR (independent of idiom): the response header is added exactly when the challenge header is present, 1..=63 bytes long and every byte passes the character predicate (all lengths 0..100 enumerated against the extracted decision tree); the character predicate accepts exactly [0-9A-Za-z._-] (evaluated on every cell of the finite code-point partition induced by its constants and the std class boundaries); the echoed value is `response ` + that same header value; every non-error path answers 204. Assumes std's is_ascii_* / http's len()/is_empty()/as_bytes()/to_str() do what they document; unrecognised tests fail closed.",
         "technique": "decision-tree (truth-function) extraction from loop-free MIR + exact evaluation over a finite partition of the input domain (predicate abstraction), operand provenance",
@@ -168,7 +172,6 @@ _PENDING = "rules for this property are not implemented yet in this revision (se
 
 NOT_APPLICABLE = {
     "C16": "Arithmetic partition of a byte buffer by run-time lengths and segment sizes; needs symbolic evaluation, not code shape.",
-    "C23": "Pruning counts/ordering over run-time collections (sort by time, keep N); any shape rule would freeze a source fragment.",
     "C28": "Numeric choice (best latency in a time window, 2/3 hysteresis) over report histories; value-level, not structural.",
 }
 for _i in range(1, 44):
